@@ -27,6 +27,8 @@ CONSTANTS
   U32R = 6
   Ticks = {}
   Clock0 = 0
+  DelMax = 2
+  DelNewestOnly = FALSE
   MaxOps = 0
   MaxSnaps = 0
   MaxClock = 0
